@@ -35,6 +35,18 @@ def gen_cases(env, n_programs, depth):
                     ("[1|(2|{3|λ4|⟨5⟩;})]", 5), ("v[1|2]", 1), ("₌[1]λ2;", 1), ("[`a`]", 2), ("(«ab«)", 2),
                     ("`abc\n`", 1), ("λ`ab\n`;", 2), ("«ab\n«", 1), ("[»1\n»]", 2), ("`a `", 1), ("`\n`", 1), ("(`a\n\n`)", 2)):
         cases.append((full, [full[: len(full) - i] for i in range(1, k + 1)]))
+    # the last literal of the program ends in a character that could act on its closing delimiter: for every
+    # literal kind x every last character of the lexer's own vocabulary (backslash, delimiters, digits ...) x
+    # enclosing structures whose closers follow
+    lasts = ["\\", "`", "»", "«", "0", ".", "‛", "→", "#", "k", "⁺", "\n", "a"]
+    for lo, lc in (("`", "`"), ("»", "»"), ("«", "«")):
+        for last in lasts:
+            if last == lc or (lo == "`" and last == "\\"):
+                continue          # the delimiter itself ends the literal; backslash in a back-quoted string is its escape
+            for pre, clos in (("", ""), ("λ", ";"), ("[1|", "]"), ("(λ⟨", "⟩;)"), ("3(n[", "])")):
+                full = pre + lo + "ab" + last + lc + clos
+                k = 1 + len(clos)
+                cases.append((full, [full[: len(full) - i] for i in range(1, k + 1)]))
     return cases
 
 
